@@ -27,7 +27,7 @@ pub struct ErrTok(pub String);
 #[derive(Clone, Debug)]
 pub enum Dir {
     Out(String),
-    Nest { kind: String, h: u64, d: u64 },
+    Nest { kind: String, h: u64, d: u64, then: Option<String> },
 }
 
 pub struct Gate {
@@ -290,9 +290,20 @@ async fn hook_gate(sh: &Shared, hook: &'static str) -> String {
     loop {
         match GateFut(sh, hook).await {
             Dir::Out(o) => return o,
-            Dir::Nest { kind, h, d } => match Instr::new(&sh.name, &kind, h, d) {
+            Dir::Nest { kind, h, d, then } => match Instr::new(&sh.name, &kind, h, d) {
                 Some(op) => {
-                    let _ = op.await;
+                    let mut op = Box::pin(op);
+                    match futures::poll!(op.as_mut()) {
+                        // completed at once: the hook may have been told to finish in this very poll
+                        Poll::Ready(_) => {
+                            if let Some(o) = then {
+                                return o;
+                            }
+                        }
+                        Poll::Pending => {
+                            let _ = op.await;
+                        }
+                    }
                 }
                 None => emit(json!({"e": "Inapplicable", "a": sh.name, "what": "nest"})),
             },
@@ -350,9 +361,20 @@ async fn run_body(sh: &Shared) -> String {
     loop {
         match GateFut(sh, "Run").await {
             Dir::Out(o) => return o,
-            Dir::Nest { kind, h, d } => match Instr::new(&sh.name, &kind, h, d) {
+            Dir::Nest { kind, h, d, then } => match Instr::new(&sh.name, &kind, h, d) {
                 Some(op) => {
-                    let _ = op.await;
+                    let mut op = Box::pin(op);
+                    match futures::poll!(op.as_mut()) {
+                        // completed at once: the hook may have been told to finish in this very poll
+                        Poll::Ready(_) => {
+                            if let Some(o) = then {
+                                return o;
+                            }
+                        }
+                        Poll::Pending => {
+                            let _ = op.await;
+                        }
+                    }
                 }
                 None => emit(json!({"e": "Inapplicable", "a": sh.name, "what": "nest"})),
             },
